@@ -251,7 +251,8 @@ func HavingExpr(rng *rand.Rand, kinds map[string]string, depth int, mismatch boo
 	case "float64":
 		e.RLit = MustLitF([]float64{-2.5, -2.75, 0, 0.25, 0.2500001, 3, 2.999, 1e32, -1e32, 1e-9, 0.5, 1.0000001, 1.00000015, 1.0000002}[rng.Intn(14)])
 	case "text":
-		e.RLit = MustLitT([]string{"abc", "ab", "b c", "a", "abd", "", "!", "/u", "u", "a b", "b", "c", "p", "q", "_r", "/t", "/u/x"}[rng.Intn(17)])
+		// (letter-case variants of one text are different constants)
+		e.RLit = MustLitT([]string{"abc", "ab", "b c", "a", "abd", "", "!", "/u", "u", "a b", "b", "c", "p", "q", "_r", "/t", "/u/x", "ABC", "Abc", "AB", "B C", "P", "Q"}[rng.Intn(23)])
 	case "time":
 		ts := []time.Time{T0, T1, T2, T2Z, T3, T4, T2.Add(time.Nanosecond), T2.Add(-time.Nanosecond).In(time.FixedZone("", -5*3600))}
 		t := ts[rng.Intn(len(ts))]
